@@ -526,6 +526,81 @@ pub fn c10(tier: &str, seed: u64) {
   drive("C10", tier, seed)
 }
 
+/// C11 at the level of the key HOLDER (`Server`) and of the state it exports: after every
+/// `Server::puncture(tag)` that reports success - registered tag or not, first puncture or repeat -
+/// neither the server's puncturable key nor the key state exported, serialised and imported into
+/// another server retains a node on the path to `tag`, and the retained nodes cannot evaluate it.
+fn c11_server(tier: &str, seed: u64) {
+  use ppoprf::ppoprf::{Server, ServerKeyState};
+  let mut g = Sm::new(seed, "oracle.C11.server");
+  let n = if quick(tier) { 12 } else { 150 };
+  for si in 0..n {
+    let mds: Vec<u8> = match si % 4 {
+      0 => vec![0, 1, 2, 3],
+      1 => (0..g.range(1, 6)).map(|_| g.next() as u8).collect(),
+      2 => vec![0, 128, 255],
+      _ => (0..=255u8).step_by(g.range(1, 9) as usize).collect(),
+    };
+    let mut server = match Server::new(mds.clone()) {
+      Ok(s) => s,
+      Err(_) => continue,
+    };
+    let mut done: Vec<u8> = Vec::new();
+    let mut trace = format!("new:{}", hex(&mds));
+    for step in 0..g.range(2, 7) {
+      // registered tags, unregistered ones, extremes, siblings of earlier punctures, repeats
+      let md = match g.below(6) {
+        0 => *g.pick(&mds),
+        1 => *g.pick(&[0u8, 255, 128, 127, 200]),
+        2 if !done.is_empty() => *g.pick(&done) ^ (1u8 << g.below(8)),
+        3 if !done.is_empty() => *g.pick(&done),
+        _ => g.next() as u8,
+      };
+      let res = server.puncture(md);
+      trace.push_str(&format!(" pu:{}:{}", md, if res.is_ok() { "ok" } else { "err" }));
+      if res.is_ok() && !done.contains(&md) {
+        done.push(md);
+      }
+      // the exported state, through bincode, into a server with its own identity
+      let bytes = bincode::serialize(&server.get_private_key()).expect("serialize key state");
+      let st: ServerKeyState = bincode::deserialize(&bytes).expect("deserialize key state");
+      let mut importer = Server::new(vec![9, 8, 7]).expect("Server::new");
+      importer.set_private_key(st);
+      for (holder, srv) in [("key holder", &server), ("importer of the exported key state", &importer)] {
+        let nodes = srv.verif_pprf().verif_retained_nodes();
+        for &x in &done {
+          for nd in &nodes {
+            if covers(node_id(&nd.0), x) {
+              fail(
+                "node_on_punctured_path_retained",
+                &[("where", holder.to_string()), ("registered_tags", hex(&mds)), ("trace", trace.clone()), ("punctured", x.to_string()), ("registered", mds.contains(&x).to_string()), ("prefix", bits_str(&nd.0)), ("seed", hex(&nd.1))],
+              );
+            }
+          }
+          let mut out = [0u8; 32];
+          if srv.verif_pprf().eval(&[x], &mut out).is_ok() {
+            fail("punctured_input_still_evaluates", &[("where", holder.to_string()), ("registered_tags", hex(&mds)), ("trace", trace.clone()), ("input", x.to_string()), ("value", hex(&out))]);
+          }
+        }
+        // every input not punctured is still covered by exactly one retained node
+        if step == 0 || g.chance(1, 3) {
+          for x in 0..=255u8 {
+            if !done.contains(&x) {
+              let c = nodes.iter().filter(|nd| covers(node_id(&nd.0), x)).count();
+              if c != 1 {
+                fail("cover_count", &[("where", holder.to_string()), ("trace", trace.clone()), ("input", x.to_string()), ("retained_ancestors", c.to_string()), ("want", "1".into())]);
+              }
+            }
+          }
+        }
+      }
+      case(true);
+      stat("oracle.C11.server_states");
+    }
+  }
+}
+
 pub fn c11(tier: &str, seed: u64) {
+  c11_server(tier, seed);
   drive("C11", tier, seed)
 }
